@@ -123,6 +123,16 @@ type c19Fn struct {
 	// every lock this function's own body takes (anywhere, nested blocks included)
 	locksTaken c19Mask
 	rmw        []c19RMWAccess
+	// accesses / calls / spawns in source order (start-up analysis: what happens after the first `go`)
+	seq []c19Ev
+	// calls through function VALUES (func-typed variables, parameters, fields) that the call graph cannot follow,
+	// and `go` / time.AfterFunc of such values
+	dynCalls, dynGo int
+}
+
+type c19Ev struct {
+	kind byte // 'a' access, 'c' call, 's' spawn
+	idx  int
 }
 
 type c19Spawn struct {
@@ -154,6 +164,8 @@ type c19Scan struct {
 	notes  []string
 	// the nominal lock chosen for each variable
 	nominal []string
+	// second pass: RLock / RUnlock are not lock operations (only exclusive sections protect a write)
+	exclusiveOnly bool
 	// "<file relative to the repo>:<line>" of every direct access -> variable name (race report mapping)
 	accessAt map[string]string
 }
@@ -330,6 +342,21 @@ func (s *c19Scan) index() error {
 			return fmt.Errorf("shared variable %s not found in %s", c19Vars[i].Name, c19Vars[i].Pkg)
 		}
 	}
+	// lock identity is the declared object; the printed name "Type.field" is qualified by the package when two
+	// different mutexes of the module would print alike
+	byName := map[string][]types.Object{}
+	for o, n := range s.lockOf {
+		byName[n] = append(byName[n], o)
+	}
+	for n, os := range byName {
+		if len(os) > 1 {
+			for _, o := range os {
+				if o.Pkg() != nil {
+					s.lockOf[o] = o.Pkg().Name() + "." + n
+				}
+			}
+		}
+	}
 	seenLock := map[string]bool{}
 	for _, n := range s.lockOf {
 		if !seenLock[n] {
@@ -471,7 +498,11 @@ func (w *c19Walker) lockCall(e ast.Expr) (c19Mask, string) {
 		return 0, ""
 	}
 	switch sel.Sel.Name {
-	case "Lock", "RLock", "Unlock", "RUnlock":
+	case "Lock", "Unlock":
+	case "RLock", "RUnlock":
+		if w.s.exclusiveOnly {
+			return 0, ""
+		}
 	default:
 		return 0, ""
 	}
@@ -504,6 +535,16 @@ func (w *c19Walker) stmts(list []ast.Stmt, held c19Mask) c19Mask {
 	return held
 }
 
+// clauses: the case / comm clauses of a switch or select are alternatives: each starts from `held`, the result is
+// the intersection
+func (w *c19Walker) clauses(list []ast.Stmt, held c19Mask) c19Mask {
+	out := held
+	for _, cl := range list {
+		out &= w.stmt(cl, held)
+	}
+	return out
+}
+
 func bitIndex(m c19Mask) int {
 	for i := 0; i < 64; i++ {
 		if m == 1<<uint(i) {
@@ -513,8 +554,8 @@ func bitIndex(m c19Mask) int {
 	return -1
 }
 
-// stmt returns the lock set held after the statement (only top-level lock/unlock statements of a
-// statement list change it; what a nested block does to the lock set is dropped = conservative).
+// stmt returns the lock set held after the statement.  Nested blocks: a lock RELEASED inside a nested block
+// (on any branch) counts as released afterwards, a lock TAKEN inside is not kept (intersection = conservative).
 func (w *c19Walker) stmt(st ast.Stmt, held c19Mask) c19Mask {
 	switch st := st.(type) {
 	case nil:
@@ -541,17 +582,18 @@ func (w *c19Walker) stmt(st ast.Stmt, held c19Mask) c19Mask {
 	case *ast.GoStmt:
 		w.spawn("go", st.Call, held)
 	case *ast.BlockStmt:
-		w.stmts(st.List, held)
+		return held & w.stmts(st.List, held)
 	case *ast.IfStmt:
 		w.stmt(st.Init, held)
 		w.expr(st.Cond, held, nil)
-		w.stmts(st.Body.List, held)
-		w.stmt(st.Else, held)
+		a := w.stmts(st.Body.List, held)
+		b := w.stmt(st.Else, held)
+		return held & a & b
 	case *ast.ForStmt:
 		w.stmt(st.Init, held)
 		w.expr(st.Cond, held, nil)
 		w.stmt(st.Post, held)
-		w.stmts(st.Body.List, held)
+		return held & w.stmts(st.Body.List, held)
 	case *ast.RangeStmt:
 		wr := map[ast.Node]bool{}
 		w.markWrite(st.Key, wr)
@@ -559,25 +601,25 @@ func (w *c19Walker) stmt(st ast.Stmt, held c19Mask) c19Mask {
 		w.expr(st.Key, held, wr)
 		w.expr(st.Value, held, wr)
 		w.expr(st.X, held, nil)
-		w.stmts(st.Body.List, held)
+		return held & w.stmts(st.Body.List, held)
 	case *ast.SwitchStmt:
 		w.stmt(st.Init, held)
 		w.expr(st.Tag, held, nil)
-		w.stmts(st.Body.List, held)
+		return held & w.clauses(st.Body.List, held)
 	case *ast.TypeSwitchStmt:
 		w.stmt(st.Init, held)
 		w.stmt(st.Assign, held)
-		w.stmts(st.Body.List, held)
+		return held & w.clauses(st.Body.List, held)
 	case *ast.CaseClause:
 		for _, e := range st.List {
 			w.expr(e, held, nil)
 		}
-		w.stmts(st.Body, held)
+		return held & w.stmts(st.Body, held)
 	case *ast.SelectStmt:
-		w.stmts(st.Body.List, held)
+		return held & w.clauses(st.Body.List, held)
 	case *ast.CommClause:
 		w.stmt(st.Comm, held)
-		w.stmts(st.Body, held)
+		return held & w.stmts(st.Body, held)
 	case *ast.LabeledStmt:
 		return w.stmt(st.Stmt, held)
 	case *ast.AssignStmt:
@@ -686,10 +728,12 @@ func (w *c19Walker) spawn(kind string, call *ast.CallExpr, held c19Mask) {
 		}
 		sp.call = w.resolve(call, 0)
 		if sp.call == nil {
+			w.fn.dynGo++ // `go f()` of a function value: no root can be derived
 			return
 		}
 	}
 	w.fn.spawns = append(w.fn.spawns, sp)
+	w.fn.seq = append(w.fn.seq, c19Ev{'s', len(w.fn.spawns) - 1})
 }
 
 func isAfterFunc(call *ast.CallExpr) bool {
@@ -717,8 +761,17 @@ func (w *c19Walker) expr(e ast.Expr, held c19Mask, wr map[ast.Node]bool) {
 				w.expr(x.Args[0], held, nil)
 				if lit, ok := x.Args[1].(*ast.FuncLit); ok {
 					w.fn.spawns = append(w.fn.spawns, &c19Spawn{kind: "timer", from: w.fn, target: w.newClosure(lit)})
+					w.fn.seq = append(w.fn.seq, c19Ev{'s', len(w.fn.spawns) - 1})
+				} else if c := w.funcValue(x.Args[1]); c != nil {
+					// time.AfterFunc(d, x.method) / time.AfterFunc(d, f): a timer root running that function
+					if sel, ok := x.Args[1].(*ast.SelectorExpr); ok {
+						w.expr(sel.X, held, nil)
+					}
+					w.fn.spawns = append(w.fn.spawns, &c19Spawn{kind: "timer", from: w.fn, call: c})
+					w.fn.seq = append(w.fn.seq, c19Ev{'s', len(w.fn.spawns) - 1})
 				} else {
 					w.expr(x.Args[1], held, nil)
+					w.fn.dynGo++
 				}
 				return false
 			}
@@ -741,9 +794,14 @@ func (w *c19Walker) expr(e ast.Expr, held c19Mask, wr map[ast.Node]bool) {
 				}
 				w.markWrite(x.Args[0], wr)
 			}
-			if c := w.resolve(x, held); c != nil {
+			if c := w.resolve(x, held); c == nil {
+				if w.isFuncValueCall(x) {
+					w.fn.dynCalls++
+				}
+			} else {
 				c.dropped = w.dropped
 				w.fn.calls = append(w.fn.calls, c)
+				w.fn.seq = append(w.fn.seq, c19Ev{'c', len(w.fn.calls) - 1})
 				if c.static != nil {
 					callee := c19FuncDisplayName(c.static)
 					for si, spec := range c19RMWs {
@@ -770,12 +828,14 @@ func (w *c19Walker) expr(e ast.Expr, held c19Mask, wr map[ast.Node]bool) {
 					a.write = m == "w"
 				}
 				w.fn.accesses = append(w.fn.accesses, a)
+				w.fn.seq = append(w.fn.seq, c19Ev{'a', len(w.fn.accesses) - 1})
 			}
 			return true
 		case *ast.Ident:
 			if i, ok := w.tracked(x); ok && c19Vars[i].Type == "" {
 				w.s.noteAccess(x.Pos(), i)
 				w.fn.accesses = append(w.fn.accesses, c19Access{v: i, held: held, write: wr != nil && wr[x], dropped: w.dropped})
+				w.fn.seq = append(w.fn.seq, c19Ev{'a', len(w.fn.accesses) - 1})
 			}
 		}
 		return true
@@ -816,6 +876,57 @@ func (w *c19Walker) resolve(call *ast.CallExpr, held c19Mask) *c19Call {
 		}
 	}
 	return nil
+}
+
+// funcValue: an expression used as a function VALUE (not called here) that denotes a declared function or method
+func (w *c19Walker) funcValue(e ast.Expr) *c19Call {
+	switch f := e.(type) {
+	case *ast.ParenExpr:
+		return w.funcValue(f.X)
+	case *ast.Ident:
+		if o, ok := w.p.info.Uses[f].(*types.Func); ok {
+			return &c19Call{static: o}
+		}
+	case *ast.SelectorExpr:
+		if sel, ok := w.p.info.Selections[f]; ok && sel.Kind() == types.MethodVal {
+			if m, ok := sel.Obj().(*types.Func); ok {
+				if it, ok := sel.Recv().Underlying().(*types.Interface); ok {
+					return &c19Call{iface: it, method: m.Name()}
+				}
+				return &c19Call{static: m}
+			}
+		}
+		if o, ok := w.p.info.Uses[f.Sel].(*types.Func); ok {
+			return &c19Call{static: o}
+		}
+	}
+	return nil
+}
+
+// isFuncValueCall: an unresolved call whose callee is a func-typed variable / parameter / struct field of the module
+// (calls of functions of packages outside the module, conversions and builtins are not counted)
+func (w *c19Walker) isFuncValueCall(call *ast.CallExpr) bool {
+	fun := call.Fun
+	for {
+		if p, ok := fun.(*ast.ParenExpr); ok {
+			fun = p.X
+		} else {
+			break
+		}
+	}
+	switch f := fun.(type) {
+	case *ast.Ident:
+		if v, ok := w.p.info.Uses[f].(*types.Var); ok {
+			_, isSig := v.Type().Underlying().(*types.Signature)
+			return isSig
+		}
+	case *ast.SelectorExpr:
+		if sel, ok := w.p.info.Selections[f]; ok && sel.Kind() == types.FieldVal {
+			_, isSig := sel.Type().Underlying().(*types.Signature)
+			return isSig
+		}
+	}
+	return false
 }
 
 // ---------------------------------------------------------------- call graph (CHA for interfaces)
@@ -895,8 +1006,10 @@ func (s *c19Scan) link() {
 }
 
 // must-hold lock set at the entry of every function reachable from `entry`
-func (s *c19Scan) reach(entry *c19Fn) map[*c19Fn]c19Mask {
-	held := map[*c19Fn]c19Mask{entry: 0}
+func (s *c19Scan) reach(entry *c19Fn) map[*c19Fn]c19Mask { return s.reachFrom(entry, 0) }
+
+func (s *c19Scan) reachFrom(entry *c19Fn, h0 c19Mask) map[*c19Fn]c19Mask {
+	held := map[*c19Fn]c19Mask{entry: h0}
 	work := []*c19Fn{entry}
 	for len(work) > 0 {
 		f := work[len(work)-1]
@@ -1034,22 +1147,188 @@ func (s *c19Scan) rows() ([]c19Row, map[string]string) {
 		atomic bool
 	}
 	var all []acc
-	covered := map[*c19Fn]bool{}
-	for _, e := range s.entries() {
-		held := s.reach(e.fn)
+	covered := map[*c19Fn]bool{} // has accesses and is reached from an entry
+	reached := map[*c19Fn]bool{} // reached from an entry
+	addReach := func(name string, held map[*c19Fn]c19Mask) {
 		for fn, h := range held {
+			reached[fn] = true
 			for _, a := range fn.accesses {
 				covered[fn] = true
-				all = append(all, acc{k{a.v, fn.name, a.write, e.name}, (h &^ a.dropped) | a.held, a.atomic})
+				all = append(all, acc{k{a.v, fn.name, a.write, name}, (h &^ a.dropped) | a.held, a.atomic})
 			}
 		}
 	}
-	// accessor functions that no entry reaches (constructors, start-up, dead code): listed with entry "-"
+	for _, e := range s.entries() {
+		addReach(e.name, s.reach(e.fn))
+	}
+	// The rest of the exported API of the anchored packages (everything another package, an RPC or a network thread
+	// may call at any time): an accessor that only such a function reaches is NOT start-up code.  Constructors and
+	// life-cycle methods are left to the start-up analysis below.
+	lifecycle := func(fn *c19Fn) bool {
+		if fn.obj == nil {
+			return false
+		}
+		n := fn.obj.Name()
+		return strings.HasPrefix(n, "New") || n == "Start" || n == "Open" || n == "Close" || n == "Stop" || n == "init"
+	}
 	for _, fn := range s.all {
-		if covered[fn] {
+		if !inList(fn.pkg, c19Anchored) || !fn.exported || fn.obj == nil || reached[fn] || lifecycle(fn) {
 			continue
 		}
-		for _, a := range fn.accesses {
+		held := s.reach(fn)
+		uncoveredAccessor := false
+		for g := range held {
+			if len(g.accesses) > 0 && !covered[g] {
+				uncoveredAccessor = true
+			}
+		}
+		if !uncoveredAccessor {
+			continue
+		}
+		// only the not yet covered accessors get rows (the others already have theirs from the named entries)
+		for g, h := range held {
+			if covered[g] {
+				continue
+			}
+			for _, a := range g.accesses {
+				all = append(all, acc{k{a.v, g.name, a.write, "api:" + fn.name}, (h &^ a.dropped) | a.held, a.atomic})
+			}
+		}
+	}
+	apiCovered := map[*c19Fn]bool{}
+	for _, a := range all {
+		if strings.HasPrefix(a.key.entry, "api:") {
+			for _, fn := range s.all {
+				if fn.name == a.key.fn {
+					apiCovered[fn] = true
+				}
+			}
+		}
+	}
+	// Start-up analysis.  Code that no entry reaches (constructors, Start/Open) is exempt ("-") only for what it does
+	// BEFORE it starts a goroutine that can reach the same variable: walking the start-up functions in source order,
+	// `live` is the set of variables reachable from the goroutines started so far (own `go`/timer statements and those
+	// of the functions already called); an access of a live variable gets a real entry `init:<root>`.
+	varsOf := map[*c19Fn]map[int]bool{}
+	reachVars := func(t *c19Fn) map[int]bool {
+		if m, ok := varsOf[t]; ok {
+			return m
+		}
+		m := map[int]bool{}
+		for g := range s.reach(t) {
+			for _, a := range g.accesses {
+				m[a.v] = true
+			}
+		}
+		varsOf[t] = m
+		return m
+	}
+	spawnTargets := func(sp *c19Spawn) []*c19Fn {
+		if sp.target != nil {
+			return []*c19Fn{sp.target}
+		}
+		if sp.call != nil {
+			return sp.call.callees
+		}
+		return nil
+	}
+	// spawnVars(f): variables reachable from goroutines started by f or anything it calls
+	spawnVars := map[*c19Fn]map[int]bool{}
+	for _, f := range s.all {
+		m := map[int]bool{}
+		for _, sp := range f.spawns {
+			for _, t := range spawnTargets(sp) {
+				for v := range reachVars(t) {
+					m[v] = true
+				}
+			}
+		}
+		spawnVars[f] = m
+	}
+	for changed := true; changed; {
+		changed = false
+		for _, f := range s.all {
+			for _, c := range f.calls {
+				for _, t := range c.callees {
+					for v := range spawnVars[t] {
+						if !spawnVars[f][v] {
+							spawnVars[f][v] = true
+							changed = true
+						}
+					}
+				}
+			}
+		}
+	}
+	postGo := map[*c19Fn]map[int]bool{} // access indexes of f that happen after a goroutine reaching the variable runs
+	var initWalk func(root string, f *c19Fn, live map[int]bool, h c19Mask, depth int) map[int]bool
+	visiting := map[*c19Fn]bool{}
+	initWalk = func(root string, f *c19Fn, live map[int]bool, h c19Mask, depth int) map[int]bool {
+		if visiting[f] || depth > 40 {
+			return live
+		}
+		visiting[f] = true
+		defer delete(visiting, f)
+		for _, ev := range f.seq {
+			switch ev.kind {
+			case 's':
+				for _, t := range spawnTargets(f.spawns[ev.idx]) {
+					for v := range reachVars(t) {
+						live[v] = true
+					}
+				}
+			case 'a':
+				a := f.accesses[ev.idx]
+				if live[a.v] {
+					if postGo[f] == nil {
+						postGo[f] = map[int]bool{}
+					}
+					postGo[f][ev.idx] = true
+					all = append(all, acc{k{a.v, f.name, a.write, "init:" + root}, (h &^ a.dropped) | a.held, a.atomic})
+				}
+			case 'c':
+				c := f.calls[ev.idx]
+				for _, t := range c.callees {
+					if reached[t] || apiCovered[t] {
+						for v := range spawnVars[t] {
+							live[v] = true
+						}
+						continue
+					}
+					live = initWalk(root, t, live, (h&^c.dropped)|c.held, depth+1)
+				}
+			}
+		}
+		return live
+	}
+	hasUncoveredCaller := map[*c19Fn]bool{}
+	for _, f := range s.all {
+		if reached[f] || apiCovered[f] || !inList(f.pkg, c19Anchored) {
+			continue
+		}
+		for _, c := range f.calls {
+			for _, t := range c.callees {
+				if t != f {
+					hasUncoveredCaller[t] = true
+				}
+			}
+		}
+	}
+	for _, f := range s.all {
+		if reached[f] || apiCovered[f] || hasUncoveredCaller[f] || !inList(f.pkg, c19Anchored) {
+			continue
+		}
+		initWalk(f.name, f, map[int]bool{}, 0, 0)
+	}
+	// what is left: accesses of start-up code before any goroutine that could reach the variable exists: entry "-"
+	for _, fn := range s.all {
+		if covered[fn] || apiCovered[fn] {
+			continue
+		}
+		for i, a := range fn.accesses {
+			if postGo[fn][i] {
+				continue
+			}
 			all = append(all, acc{k{a.v, fn.name, a.write, "-"}, a.held, a.atomic})
 		}
 	}
@@ -1353,27 +1632,60 @@ func c19NominalLock(name string) string {
 // c19LastScan keeps the last successful scan (nominal locks, access positions) for the other parts of hx c19
 var c19LastScan *c19Scan
 
+// c19ScanRepo: READ rows come from a scan in which RLock counts as holding the lock; WRITE rows from a second scan
+// in which RLock/RUnlock are ignored (a writer under a read lock is not protected); a variable keeps its guard only
+// if no write row from a real entry point became false.
 func c19ScanRepo(repo string) ([]c19Row, map[string]string, error) {
-	s := &c19Scan{repo: repo, fset: token.NewFileSet(), pkgs: map[string]*c19Pkg{}, fake: map[string]*types.Package{}}
+	rowsA, guards, sA, err := c19ScanOnce(repo, false)
+	if err != nil {
+		return nil, nil, err
+	}
+	rowsB, _, _, err := c19ScanOnce(repo, true)
+	if err != nil {
+		return nil, nil, err
+	}
+	excl := map[string]bool{}
+	for _, r := range rowsB {
+		if r.RW == "w" {
+			excl[r.Var+"|"+r.Fn+"|"+r.Entry] = r.Held
+		}
+	}
+	for i, r := range rowsA {
+		if r.RW != "w" {
+			continue
+		}
+		if h, ok := excl[r.Var+"|"+r.Fn+"|"+r.Entry]; ok && r.Held && !h {
+			rowsA[i].Held = false // held through RLock only
+			if r.Entry != "-" {
+				guards[r.Var] = "none"
+			}
+		}
+	}
+	c19LastScan = sA
+	return rowsA, guards, nil
+}
+
+func c19ScanOnce(repo string, exclusiveOnly bool) ([]c19Row, map[string]string, *c19Scan, error) {
+	s := &c19Scan{repo: repo, fset: token.NewFileSet(), pkgs: map[string]*c19Pkg{}, fake: map[string]*types.Package{}, exclusiveOnly: exclusiveOnly}
 	for _, r := range c19Roots {
 		if _, err := s.load(c19Mod + "/" + r); err != nil {
-			return nil, nil, fmt.Errorf("load %s: %v", r, err)
+			return nil, nil, nil, fmt.Errorf("load %s: %v", r, err)
 		}
 	}
 	if err := s.index(); err != nil {
-		return nil, nil, err
+		return nil, nil, nil, err
 	}
 	s.collect()
 	s.link()
 	rows, guards := s.rows()
 	rrows, rguards, err := s.rmwRows()
 	if err != nil {
-		return nil, nil, err
+		return nil, nil, nil, err
 	}
 	rows = append(rows, rrows...)
 	hrows, hguard, err := s.headDecisionRows()
 	if err != nil {
-		return nil, nil, err
+		return nil, nil, nil, err
 	}
 	rows = append(rows, hrows...)
 	guards[c19HeadDecision] = hguard
@@ -1381,8 +1693,7 @@ func c19ScanRepo(repo string) ([]c19Row, map[string]string, error) {
 	for k, v := range rguards {
 		guards[k] = v
 	}
-	c19LastScan = s
-	return rows, guards, nil
+	return rows, guards, s, nil
 }
 
 // ---------------------------------------------------------------- repair analysis (`hx c19-lockpaths`)
